@@ -1,5 +1,10 @@
 use std::cell::UnsafeCell;
 use std::ptr;
+#[cfg(may_verif)]
+use crate::atomic::AtomicPtr;
+#[cfg(may_verif)]
+use std::sync::atomic::Ordering;
+#[cfg(not(may_verif))]
 use std::sync::atomic::{AtomicPtr, Ordering};
 
 use crossbeam_utils::{Backoff, CachePadded};
@@ -14,8 +19,23 @@ struct Node<T> {
 const REF_INIT: usize = 0x1000_0002;
 const REF_COUNT_MASK: usize = 0x0FFF_FFFF;
 
+#[cfg(may_verif)]
+impl<T> Drop for Node<T> {
+    fn drop(&mut self) {
+        crate::verif::free("TlNode", self as *const Self);
+    }
+}
+
 impl<T> Node<T> {
     unsafe fn new(v: Option<T>) -> *mut Node<T> {
+        #[cfg(may_verif)]
+        return crate::verif::alloc("TlNode", Box::into_raw(Box::new(Node {
+            prev: ptr::null_mut(),
+            next: AtomicPtr::new(ptr::null_mut()),
+            value: v,
+            refs: REF_INIT,
+        })), 0, 0, 0);
+        #[cfg(not(may_verif))]
         Box::into_raw(Box::new(Node {
             prev: ptr::null_mut(),
             next: AtomicPtr::new(ptr::null_mut()),
